@@ -103,7 +103,20 @@ fn ledger(p: &Program, log: &[Rec], end: EndKind) -> Option<String> {
     }
     let get = |m: &BTreeMap<u32, usize>, t: u32| m.get(&t).copied().unwrap_or(0);
     let mut bad = vec![];
-    if p.class == 'z' {
+    if p.class == 'p' || p.class == 'q' {
+        // no drop glue: destruction is not observable; a value may still not be received twice or invented
+        for (&t, &c) in &created {
+            let (r, k) = (get(&received, t), get(&kept, t));
+            if r + k > c {
+                bad.push(format!("duplicate of tag {} (created {} received {} kept {})", t, c, r, k));
+            }
+        }
+        for (&t, _) in received.iter() {
+            if get(&created, t) == 0 {
+                bad.push(format!("tag {} was never sent", t));
+            }
+        }
+    } else if p.class == 'z' {
         let c: usize = created.values().sum();
         let a: usize = received.values().sum::<usize>() + kept.values().sum::<usize>() + dropped.values().sum::<usize>();
         if a > c {
